@@ -249,7 +249,7 @@ Section Basic.
     gBasic fuel blk key = build_view (basic_filter_with_key (hash_of H) (sort_of srt) txs (CB (Some key))).
   Proof using MO Hsort OS_spec.
     intros (mb & -> & HF) Hlen Hfit. unfold gBasic, Kernels3.buildBasicFilterWithKey, basic_filter_with_key.
-    destruct (WithKeyHash_tie CB (Some key)) as (g0 & -> & H0). cbn [rbind Go3.deref].
+    destruct (WithKeyHash_tie CB (Some key) ltac:(discriminate)) as (g0 & -> & H0). cbn [rbind Go3.deref].
     rewrite (Key_tie g0 _ H0). rewrite with_key_hash_eq in *.
     cbn [b_key_get b_err key_view rbind]. change (negb (0 =? 0)) with false. cbv iota.
     match goal with |- context [Go.foldM ?F0 (Go.enum ?l0) (Some g0)] =>
